@@ -11,6 +11,7 @@ import JSight.OrRuleSetProofs
 import JSight.KeyTypeProofs
 import JSight.Dfs
 import JSight.PinnedTree
+import JSight.RefE2EExamples
 /-!
 # C03 — Type references, or, allOf and additionalProperties compose as set operations
 
@@ -475,5 +476,144 @@ example : keyOKraw oEx (ofRaw kAB []) kAB = true ∧ keyOKraw oEx (ofRaw kAB [])
     keyOKc oEx (ofRaw kAB []) kAB = true ∧ keyOKc oEx (ofRaw kAB []) kABu = true := by decide
 
 end KeyTypes
+
+/-! ## C03 at TEXT level: type references and or-shortcuts compose as union, from schema TEXTS (work package c03text)
+
+The whole pipeline `E2E.validateText` (schema scanner model → loader model → `Compile` creation / `CompileBasic` /
+`Check` → JSON scanner model → validator machine) on a root text and added type texts whose values are scalars or type
+shortcuts `@A`, `@A | @B | …` in any nesting and blank layout (`SE.BST`, `SE.TextOK`, `SE.TypesOK`: the class of
+`C09_text_loads` / `C09_types_load`), against the specification `RE.Admits` (`JSight/RefE2ESpec.lean`): one step
+`RE.stepA` by cases on (tree, document) — scalar: the kind matrix of `C01_text_level`; shortcut: the UNION over its
+names of what the tree added under the name admits; array / object: as `VN.shape` — iterated by fuel; "admitted" =
+with some fuel (least fixed point: `@A = @A` admits nothing). `C03_text_admits_*` read it as a recursive predicate.
+Added types may themselves contain shortcuts (any depth of references, recursive types such as `@L = [@L]`). -/
+section TextLevelRefs
+open SE (BST BItem BMember TypeText TextOK TypesOK docText typeTexts typesOf cnOf namesOf)
+open RE (Admits Doc lookupB childAtB lookupM keysM)
+
+open Classical in
+/-- **C03_text_level_refs**: root text and added type texts of the class, distinct user type names, the check stage
+passes (`C09_text_level_links`: every referenced name was added and the recursion check passes); then for every
+document text that is one JSON value in any white space the pipeline answers `acc` iff the document is admitted by the
+root tree with every shortcut leaf read as the union of the trees of its names — and `rej` otherwise, never an error -/
+theorem C03_text_level_refs (w0 : SE.Bytes) (t : BST) (w1 : SE.Bytes) (ht : TextOK w0 t w1) (tys : List TypeText)
+    (htys : TypesOK tys) (hn : CL.typeNamesOK (typeTexts tys) = true) (opt : Bool)
+    (hc : Compile.check (cnOf opt t) (typesOf tys) = .ok ())
+    (d : VPos.T UInt8) (hd : (VPos.toJA JsonScan.classify d).Valid) (ws0 ws1 : List UInt8)
+    (hw0 : JsonScan.IsWs (ws0.map JsonScan.classify)) (hw1 : JsonScan.IsWs (ws1.map JsonScan.classify)) :
+    E2E.validateText (docText w0 t w1) (typeTexts tys) (ws0 ++ (d.render VPos.byteSym ++ ws1)) opt
+      = if Admits tys opt t (E2E.docOf d) then .acc else .rej :=
+  RE.text_level_refs w0 t w1 ht tys htys hn opt hc d hd ws0 ws1 hw0 hw1
+
+/-- the same as two equivalences on the outcome -/
+theorem C03_text_level_refs_iff (w0 : SE.Bytes) (t : BST) (w1 : SE.Bytes) (ht : TextOK w0 t w1) (tys : List TypeText)
+    (htys : TypesOK tys) (hn : CL.typeNamesOK (typeTexts tys) = true) (opt : Bool)
+    (hc : Compile.check (cnOf opt t) (typesOf tys) = .ok ())
+    (d : VPos.T UInt8) (hd : (VPos.toJA JsonScan.classify d).Valid) (ws0 ws1 : List UInt8)
+    (hw0 : JsonScan.IsWs (ws0.map JsonScan.classify)) (hw1 : JsonScan.IsWs (ws1.map JsonScan.classify)) :
+    (E2E.validateText (docText w0 t w1) (typeTexts tys) (ws0 ++ (d.render VPos.byteSym ++ ws1)) opt = .acc
+        ↔ Admits tys opt t (E2E.docOf d)) ∧
+    (E2E.validateText (docText w0 t w1) (typeTexts tys) (ws0 ++ (d.render VPos.byteSym ++ ws1)) opt = .rej
+        ↔ ¬ Admits tys opt t (E2E.docOf d)) := by
+  rw [C03_text_level_refs w0 t w1 ht tys htys hn opt hc d hd ws0 ws1 hw0 hw1]
+  by_cases h : Admits tys opt t (E2E.docOf d) <;> simp [h]
+
+/-- the validator half alone: the specification of the validator machine (`C03_key_shortcuts`) on the validator schema
+of the compiled root and the table of the compiled types is the union specification -/
+theorem C03_text_validator_refs (tys : List TypeText) (kOK : String → String → Bool) (opt : Bool) (t : BST) (d : Doc) :
+    VK.validateT (RE.envB tys) Compile.litOK kOK (RE.vkOf opt t) d = true ↔ Admits tys opt t d := by
+  rw [VK.C03_key_shortcuts]
+  exact RE.shape_iff_admits tys kOK opt t d
+
+/-- the specification as a recursive predicate. **Union**: a shortcut leaf `@A | @B | …` admits exactly what the tree
+added under one of its names admits (added types are read with required keys) -/
+theorem C03_text_admits_union (tys : List TypeText) (o : Bool) (fi : List UInt8) (as : List SE.Alt) (sps : List UInt8)
+    (d : Doc) :
+    Admits tys o (.short fi as sps) d ↔
+      ∃ n ∈ namesOf fi as sps, ∃ t, lookupB tys n = some t ∧ Admits tys false t d :=
+  RE.admits_short tys o fi as sps d
+
+/-- a scalar leaf: the literal-kind rule of `C01_text_level` -/
+theorem C03_text_admits_scalar (tys : List TypeText) (o : Bool) (tok : List UInt8) (d : Doc) :
+    Admits tys o (.scalar tok) d ↔ ∃ x, d = .lit x ∧ E2E.kindOKTok (E2E.kindOf tok) x = true :=
+  RE.admits_scalar tys o tok d
+
+/-- an array: every element is admitted by the item of its index, the last item repeating -/
+theorem C03_text_admits_arr (tys : List TypeText) (o : Bool) (w : List UInt8) (its : List BItem) (d : Doc) :
+    Admits tys o (.arr w its) d ↔
+      ∃ xs, d = .arr xs ∧ ∀ p ∈ xs.zipIdx, ∃ t, childAtB its p.2 = some t ∧ Admits tys o t p.1 :=
+  RE.admits_arr tys o w its d
+
+/-- an object: every member's key is a key of the tree whose value tree admits the member's value; every key of the
+tree is present unless keys are optional by default -/
+theorem C03_text_admits_obj (tys : List TypeText) (o : Bool) (w : List UInt8) (ms : List BMember) (d : Doc) :
+    Admits tys o (.obj w ms) d ↔
+      ∃ dms, d = .obj dms ∧ (∀ m ∈ dms, ∃ t, lookupM ms m.1 = some t ∧ Admits tys o t m.2) ∧
+        (o = true ∨ ∀ k ∈ keysM ms, ∃ m ∈ dms, m.1 = k) :=
+  RE.admits_obj tys o w ms d
+
+/-- a decidable criterion for "not admitted": the optimistic `k`-step unfolding already refuses -/
+theorem C03_text_not_admitted (tys : List TypeText) (k : Nat) (o : Bool) (t : BST) (d : Doc)
+    (h : RE.admitsTop tys k o t d = false) : ¬ Admits tys o t d := RE.not_admits_of_top tys k o t d h
+
+/-! non-vacuity: root `{"a": @A | @B ,⏎ "b": [@C⏎], "c": 1}`, types `@A` = `1⏎`, `@B` = `"s"`, `@C` = `{"k": true}`
+(`RE.Ex`); documents written ` …⏎`. Accepted: `{"a":1,"b":[{"k":true}],"c":2}`, `{"a":"x","b":[],"c":2}`,
+`{"c":2,"b":[{"k":false},{"k":true}],"a":1}`; rejected: `{"a":true,"b":[],"c":2}` (in neither `@A` nor `@B`),
+`{"a":1,"b":[1],"c":2}` (not in `@C`), `{"a":1,"b":[{"k":true,"z":2}],"c":2}` (`@C` has no `z`). The same six verdicts
+by evaluation: `RE.Ex` (`#guard` on the closed pipeline; kernel `decide` on scanner + validator machine). -/
+section nonvacuity
+open RE.Ex
+
+private theorem exRun (d : DT) (hd : (VPos.toJA JsonScan.classify d).Valid) :
+    (run d = .acc ↔ Admits RE.Ex.tys false SE.Ex.root (E2E.docOf d)) ∧
+    (run d = .rej ↔ ¬ Admits RE.Ex.tys false SE.Ex.root (E2E.docOf d)) :=
+  C03_text_level_refs_iff [] SE.Ex.root [] SE.Ex.root_ok RE.Ex.tys RE.Ex.tys_ok RE.Ex.names_ok false RE.Ex.check_ok d hd
+    [32] [10] sp_ws lf_ws
+
+example : run dAcc1 = .acc := (exRun dAcc1 dAcc1_valid).1.2 acc1
+example : run dAcc2 = .acc := (exRun dAcc2 dAcc2_valid).1.2 acc2
+example : run dAcc3 = .acc := (exRun dAcc3 dAcc3_valid).1.2 acc3
+example : run dRej1 = .rej := (exRun dRej1 dRej1_valid).2.2 rej1
+example : run dRej2 = .rej := (exRun dRej2 dRej2_valid).2.2 rej2
+example : run dRej3 = .rej := (exRun dRej3 dRej3_valid).2.2 rej3
+
+/-- the union at the leaf `a`: `1` through `@A`, `"x"` through `@B` -/
+example : Admits RE.Ex.tys false SE.Ex.sAB (.lit [49]) ∧ Admits RE.Ex.tys false SE.Ex.sAB (.lit [34, 120, 34]) ∧
+    ¬ Admits RE.Ex.tys false SE.Ex.sAB (.lit [116, 114, 117, 101]) :=
+  ⟨⟨2, by decide +kernel⟩, ⟨2, by decide +kernel⟩, C03_text_not_admitted _ 2 _ _ _ (by decide +kernel)⟩
+
+/-- references through references and a recursive type: `@L` = `[@L]`, `@M` = `@L | @A`, `@A` = `1`; the leaf `@M`
+admits `[[], [[]]]` and `1`, not `[1]`; the cycle `@X` = `@X` admits nothing -/
+private def tysRec : List TypeText :=
+  [("@L", [], .arr [] [([], .short [76] [] [], [])], []),
+   ("@M", [], .short [76] [([32], [32], [65])] [], []),
+   ("@A", [], .scalar [49], []),
+   ("@X", [], .short [88] [] [], [])]
+example : namesOf [76] [([32], [32], [65])] [] = ["@L", "@A"] := by decide +kernel
+example : Admits tysRec false (.short [77] [] []) (.arr [.arr [], .arr [.arr []]]) := ⟨8, by decide +kernel⟩
+example : Admits tysRec false (.short [77] [] []) (.lit [49]) := ⟨3, by decide +kernel⟩
+example : ¬ Admits tysRec false (.short [77] [] []) (.arr [.lit [49]]) :=
+  C03_text_not_admitted _ 6 _ _ _ (by decide +kernel)
+example : ¬ Admits tysRec false (.short [88] [] []) (.lit [49]) := by
+  rw [C03_text_admits_union]
+  rintro ⟨n, hn, t, hl, f, hf⟩
+  have hn' : n = "@X" := by
+    have e : namesOf [88] [] [] = ["@X"] := by decide +kernel
+    rw [e] at hn; simpa using hn
+  subst hn'
+  have ht : t = .short [88] [] [] := by
+    have e : lookupB tysRec "@X" = some (.short [88] [] []) := by simp [lookupB, tysRec]
+    rw [e] at hl; cases hl; rfl
+  subst ht
+  induction f with
+  | zero => simp [RE.admits] at hf
+  | succ f ih =>
+    apply ih
+    have e : namesOf [88] [] [] = ["@X"] := by decide +kernel
+    have e2 : lookupB tysRec "@X" = some (.short [88] [] []) := by simp [lookupB, tysRec]
+    simpa [RE.admits, RE.stepA, e, e2] using hf
+
+end nonvacuity
+end TextLevelRefs
 
 end Props.C03
